@@ -146,7 +146,7 @@ func (c *c03Case) compareAll(withBody bool, unordered map[string][][]string, sig
 
 func runC03(r *ev.Run) {
 	r.SetRule("sequentialised command histories (APPEND/STORE/EXPUNGE/UID EXPUNGE/CLOSE/COPY/MOVE incl. same-mailbox and already-present destinations, failing commands) from 1-4 sessions against 3 mailboxes, compared with the reference model through fresh EXAMINE sessions; plus bulk commands at batch sizes around the index's statement-batching limit. distinct = distinct (command kind, set shape, flag action, outcome) tuples and (bulk command, size) pairs observed")
-	r.Assume("in the first kind of history each command is issued right after a SELECT of its mailbox, so the issuing session's view equals the authoritative content; in 'live' histories sessions keep their selection, commands are UID-based over the session's own (possibly lagging) view, and a MOVE / UID EXPUNGE of a message that was already expunged elsewhere is expected to have no effect",
+	r.Assume("in the first kind of history each command is issued right after a SELECT of its mailbox (one in four preceded by an EXAMINE of some mailbox on the same connection), so the issuing session's view equals the authoritative content; in 'live' histories sessions keep their selection, commands are UID-based over the session's own (possibly lagging) view, and a MOVE / UID EXPUNGE of a message that was already expunged elsewhere is expected to have no effect",
 		"relative order of the messages filed by one multi-message COPY/MOVE is not prescribed by the property and is compared as a set")
 
 	histories := r.Pick(48, 1500)
@@ -261,6 +261,12 @@ func (c *c03Case) step() {
 	}
 
 	sel := func() bool {
+		// the connection may have looked at a mailbox read-only before: that must not stick to the SELECT
+		if rng.Intn(4) == 0 {
+			conn.Cmdf("EXAMINE %s", imapc.Quote(c03Boxes[rng.Intn(len(c03Boxes))]))
+			c.r.Count("selects_preceded_by_an_EXAMINE_on_the_same_connection", 1)
+		}
+
 		res := conn.Cmdf("SELECT %s", imapc.Quote(boxName))
 		if !res.OK() {
 			c.violate("C03 select-failed", fmt.Sprintf("SELECT %s refused: %s", boxName, res))
